@@ -94,7 +94,8 @@ def run(tier):
     m1 = run_histories(chk, gen, {"C13"}, label="c13g")
     rng = rng_for(chk, 13)
     n = 48 if tier == "quick" else 900
-    m2 = run_histories(chk, rotation_heavy(rng, n, ["none", "none", "gz", "xz"]), {"C13"}, label="c13r", sample=False)
+    m2 = run_histories(chk, rotation_heavy(rng, n, ["none", "none", "gz", "xz"]) + histgen.incompressible_rotation_family(rng),
+                       {"C13"}, label="c13r", sample=False)
     # the same kind of histories on the build with the encoder's staging buffer scaled to 12 bytes: every alignment of
     # the closing break, the file header and the carried-over block to the buffer boundary occurs (also "exactly full")
     n3 = 40 if tier == "quick" else 600
